@@ -149,3 +149,25 @@ def const_value(e):
             and isinstance(e.operand, ast.Constant):
         return -e.operand.value
     raise ValueError(norm_stmt(e))
+
+
+def order_rel(e):
+    """(lo, op, hi) with op in {'<', '<='} for a single ordering comparison,
+    whichever way round it is written; operands as normalised text.  None for
+    anything else."""
+    import ast as _ast
+    from .pyrepo import norm_stmt
+    if not (isinstance(e, _ast.Compare) and len(e.ops) == 1):
+        return None
+    a = norm_stmt(e.left).replace(" ", "")
+    b = norm_stmt(e.comparators[0]).replace(" ", "")
+    t = type(e.ops[0])
+    if t is _ast.Lt:
+        return (a, "<", b)
+    if t is _ast.LtE:
+        return (a, "<=", b)
+    if t is _ast.Gt:
+        return (b, "<", a)
+    if t is _ast.GtE:
+        return (b, "<=", a)
+    return None
